@@ -96,6 +96,11 @@ def run(ctx):
         cfg['disable_comments'] = False
         cfg['disable_exact'] = False
         cfg['inst_prop'] = RDF_TYPE
+        cfg.pop('inst_prop_spelled', None)
+        if cfg['target_mode'] == 'classes' and rng.random() < 0.5:
+            # the target classes in the three accepted spellings (prefixed where the dictionary allows it)
+            cfg['ns_dict'] = dict(DEFAULT_NS)
+            cfg['targets_spelled'] = [("ex:" + c[len(EX):]) if (c.startswith(EX) and rng.random() < 0.6) else ("<%s>" % c if rng.random() < 0.5 else c) for c in cfg['targets']]
         cases.append((g, cfg))
         nt = to_nt(g)
         kw = impl.shaper_kwargs(cfg)
